@@ -129,18 +129,37 @@ def v4_keys(ctx, rid='V4'):
     ctx.rule(rid, 'binding keys are lower-cased on both sides', floor=3)
     b = ctx.facts.one(r'^<syntax::assignment::AssignmentParser as syntax::SyntaxParserTrait>::parse$')
     ctx.fn(b)
+    from ..common import always_through
+    from ..facts import opplace
     n = 0
+    receivers = set()
     for bid, t in b.calls(r'String::push_str$'):
-        recv = render(b.expr(t['args'][0]))
         val = b.expr(t['args'][1])
         n += 1
-        low = any(x[0] == 'call' and x[1].endswith('::to_lowercase') for x in walk(val))
-        if low:
+        # the receiver `&mut key`: the local the reference was taken of
+        p0 = opplace(t['args'][0])
+        for d in (b.defs().get(p0['local'], []) if p0 else []):
+            if d[1] == 'stmt' and d[2]['rv'] == 'ref':
+                q = opplace(d[2]['ops'][0])
+                if q and not q['proj']:
+                    receivers.add(q['local'])
+        if always_through(val, r'::to_lowercase$'):
             ctx.ok(rid, 'parser key part: to_lowercase(token.to_string())', 'shape', site=t['loc'])
         else:
             ctx.finding(rid, 'AssignmentParser::parse/key-not-lowercased', 'a part of the variable key is appended without lower-casing: %s' % render(val)[:100], site=t['loc'])
+    # what the key starts from: empty, or itself lower-cased text (`let mut key = first.to_string().to_lowercase()`)
+    for l in sorted(receivers):
+        for (bid, kind, x) in b.defs().get(l, []):
+            e = strip(b.def_expr(bid, kind, x, 1, frozenset()), transparent=False)
+            if e[0] == 'call' and re.search(r'String::new$', e[1]):
+                continue
+            n += 1
+            if always_through(e, r'::to_lowercase$'):
+                ctx.ok(rid, 'parser key starts from lower-cased text', 'shape', site=x.get('loc'))
+            else:
+                ctx.finding(rid, 'AssignmentParser::parse/key-not-lowercased', 'the variable key starts from text that is not lower-cased: %s' % render(e)[:100], site=x.get('loc'))
     if n < 2:
-        raise AnchorLost('AssignmentParser::parse: expected two push_str into the key, found %d' % n)
+        raise AnchorLost('AssignmentParser::parse: expected the first word and the following words to be added to the key, found %d contributions' % n)
     # lookup uses the same key string
     for bid, t in b.calls(r'BTreeMap::<.*>::(contains_key|get)$'):
         k = render(b.expr(t['args'][1]))
